@@ -6,7 +6,7 @@
    fn 6    domain_identification.filter_nonterminal_docking_domains
    fn 7    hmmscan_refinement.HMMResult.merge
    plus, on every implementation output, the decidable specifications of coq/C13/Model.v
-   (fn 101/102/103/107), and a second call of the implementation on a shuffled copy of the input
+   (fn 101/102/103/105/107), and a second call of the implementation on a shuffled copy of the input
    (order independence of the implementation)."""
 import json
 import types
@@ -23,6 +23,9 @@ FN_NAME = {1: "refine_hmmscan_results(neighbour_mode=True)", 2: "refine_hmmscan_
 KNOWN_TEXT = {
     "greedy_replacement_margin": "refine_hmmscan_results returns hits overlapping by more than 20% of the longer profile: "
                                  "_remove_overlapping replaces `previous` without re-checking the hit before it",
+    "filter_groups_not_merged": "filter_results keeps two hits of one chain of >20 overlaps and its result depends on the order of "
+                                "the gene's hit list: the pair loop adds a bridging pair to every group it touches but never "
+                                "unites the groups",
 }
 # repaired classes (F41, F42, F43): nothing is suppressed for them; a case of one of them is a counterexample
 REPAIRED_TEXT = {
@@ -295,7 +298,7 @@ def gen_fr(rng):
     eqgs = []
     for _ in range(rng.choice([1, 1, 2, 3])):
         eqgs.append(sorted(rng.sample(range(nprof + 1), rng.choice([1, 2, 2, 3, min(3, nprof)]))))
-    scores = rng.choice([[20, 40, 60, 80, 100], [20, 40], [40], list(range(10, 200, 7))])
+    scores = rng.choice([[20, 40, 60, 80, 100], [20, 40], [40], list(range(10, 200, 7)), None, None, None])
     cds = []
     hid = 0
     for _ in range(ncds):
@@ -303,6 +306,22 @@ def gen_fr(rng):
         ranks = list(range(8))
         rng.shuffle(ranks)
         hits = []
+        distinct = rng.sample(range(10, 400, 3), n)   # pairwise distinct scores (scores is None)
+        if rng.random() < 0.4:
+            # a chain (or two) of overlaps just above / at the limit of 20, listed in a random order, so that
+            # several groups are opened before the pairs linking them are seen
+            pos, chain = rng.randint(0, 5) * 10, []
+            for j in range(n):
+                length = rng.choice([60, 100, 100, 45])
+                chain.append((pos, pos + length))
+                pos += length - rng.choice([30, 30, 21, 21, 25, 20] + ([-50] if j == n // 2 and rng.random() < 0.3 else []))
+            rng.shuffle(chain)
+            for j, (start, end) in enumerate(chain):
+                score = distinct[j] if scores is None or rng.random() < 0.7 else rng.choice(scores)
+                hits.append((hid, rng.randrange(nprof), start, end, score, ranks[j]))
+                hid += 1
+            cds.append(hits)
+            continue
         for j in range(n):
             if hits and rng.random() < 0.6:   # overlap of 19..22 with an earlier hit
                 other = rng.choice(hits)
@@ -313,7 +332,7 @@ def gen_fr(rng):
             end = start + rng.choice([21, 25, 30, 41, 60, 100])
             if rng.random() < 0.005:
                 end = start - rng.choice([0, 1])
-            hits.append((hid, rng.randrange(nprof), start, end, rng.choice(scores), ranks[j]))
+            hits.append((hid, rng.randrange(nprof), start, end, distinct[j] if scores is None else rng.choice(scores), ranks[j]))
             hid += 1
         cds.append(hits)
     order = [h[0] for hits in cds for h in hits]
@@ -443,7 +462,8 @@ RULE = ("structured random hit sets: refine_hmmscan_results (both modes) with 1-
         "group and conflict boundaries of overlap_limit (+-1), hits shorter than the limit, duplicates, missing cutoff, empty list; "
         "filter_result_multiple and filter_results on 1-3 genes with up to 8 hits, overlaps of 19..22 around the limit 20, equal "
         "scores, scores around the -1 default, set iteration order of the overlap groups chosen by the generator through the "
-        "objects' hashes; filter_nonterminal_docking_domains around the 50-residue limits; HMMResult.merge on pairs of hits with "
+        "objects' hashes, chains of 1-8 hits overlapping by 20..30 listed in random order with pairwise distinct scores (several "
+        "groups are opened before the linking pairs are seen); filter_nonterminal_docking_domains around the 50-residue limits; HMMResult.merge on pairs of hits with "
         "equal starts, nested, overlapping, disjoint, either operand first, rarely of different profiles.  Every refine/hmmer input is also run "
         "in a second, shuffled order on the implementation.  non-trivial = at least 3 input hits and a non-error result; "
         "distinct by flat encoding")
@@ -462,6 +482,17 @@ CORPUS = [
     (3, (10, [100, 100, 100], [(0, 43, 45, 20), (2, 43, 52, 20)])),
     (7, ((0, 10, 20, 5, 20), (0, 10, 80, 1, 100))),
     (7, ((0, 10, 50, 1, 100), (0, 0, 100, 5, 20))),
+    # FC13a filter_groups_not_merged (known): a chain v4-v0-v2-v1-v3 listed as v0 v3 v1 v4 v2 keeps v3 and v4
+    (5, ([[0, 1, 2, 3, 4]], [0, 3, 1, 4, 2],
+         [[(0, 0, 70, 170, 20, 0), (3, 3, 280, 380, 180, 3), (1, 1, 210, 310, 60, 1), (4, 4, 0, 100, 200, 4),
+           (2, 2, 140, 240, 40, 2)]])),
+    # the same hits in positional order (one group, one survivor)
+    (5, ([[0, 1, 2, 3, 4]], [4, 0, 2, 1, 3],
+         [[(4, 4, 0, 100, 200, 4), (0, 0, 70, 170, 20, 0), (2, 2, 140, 240, 40, 2), (1, 1, 210, 310, 60, 1),
+           (3, 3, 280, 380, 180, 3)]])),
+    # a chain of four in per-profile order (two groups grow into one another: guard holds, one survivor)
+    (5, ([[0, 1, 2, 3]], [0, 1, 2, 3],
+         [[(0, 0, 0, 100, 180, 0), (1, 1, 210, 310, 200, 1), (2, 2, 70, 170, 100, 2), (3, 3, 140, 240, 80, 3)]])),
 ]
 
 
@@ -553,24 +584,46 @@ def run(chk):
     agree = [m == o for m, o in zip(model_outs, impl_outs)]
 
     # the decidable specification on every implementation output of fn 1-3 and 7, and the finding classes
-    spec_idx = [i for i, c in enumerate(cases) if c[1] in (1, 2, 3, 7)]
+    spec_idx = [i for i, c in enumerate(cases) if c[1] in (1, 2, 3, 5, 7)]
     spec_cases = [[PROP, cases[i][1] + 100] + cases[i][2:] + impl_outs[i] for i in spec_idx]
     verdicts = common.run_driver(spec_cases)
     for i, verdict in zip(spec_idx, verdicts):
         fn = cases[i][1]
         replay = {"function": fn, "flat": cases[i], "input": describe(cases[i]), "implementation": impl_outs[i],
                   "model": model_outs[i], "spec_verdict_on_implementation_output": verdict}
-        if len(verdict) != {1: 5, 2: 5, 3: 3, 7: 1}[fn] or verdict == [-999]:
+        if len(verdict) != {1: 6, 2: 6, 3: 4, 5: 4, 7: 2}[fn] or verdict == [-999]:
             chk.violation("broken-correspondence", f"{FN_NAME[fn]}: the implementation's output does not decode",
                           dict(replay, theorem_or_correspondence="spec decoder"))
             continue
         if fn == 7:
-            if verdict != [1]:
+            if not verdict[0]:
                 chk.count("class_merge_truncates")
                 repaired(chk, "merge_truncates", "C13_merge_spans", replay)
+            if not verdict[1]:
+                chk.violation("counterexample", "HMMResult.merge: the merged hit does not carry the best score and the least "
+                              "e-value of its operands", dict(replay, theorem_or_correspondence="C13_merge_fields"))
+            continue
+        if fn == 5:
+            # [ok; applicable (domain, pairwise distinct scores); guard (groups closed); result = best of every component]
+            _ok, applicable, guard, same = verdict
+            if not applicable:
+                chk.count("filter_results_spec_not_applicable(score ties)")
+                continue
+            chk.count("filter_results_spec_evaluated")
+            chk.count("filter_results_guard_" + ("holds" if guard else "fails"))
+            if same:
+                continue
+            if guard:
+                chk.violation("counterexample", "filter_results: the survivors are not the best-scoring hit of every group of hits "
+                              "chained by overlaps > 20 although the groups the loop must build are closed",
+                              dict(replay, theorem_or_correspondence="C13_filter_results_guarded"))
+            else:
+                chk.count("class_filter_groups_not_merged")
+                finding(chk, known, "filter_groups_not_merged", agree[i], replay)
             continue
         if fn in (1, 2):
-            _ok, is_sorted, provenance, margin, coverage = verdict
+            _ok, is_sorted, provenance, margin, coverage, margin_guard = verdict
+            chk.count("refine_margin_guard_" + ("holds" if margin_guard else "fails"))
             if not coverage:
                 chk.count("class_merge_truncates")
                 repaired(chk, "merge_truncates", "C13_merge_keeps_complete_all", replay)
@@ -580,11 +633,19 @@ def run(chk):
             if not provenance:
                 chk.violation("counterexample", f"{FN_NAME[fn]}: an output hit has a field that no input hit of its profile has",
                               dict(replay, theorem_or_correspondence="C13_provenance"))
-            if not margin:
+            if not margin and margin_guard:
+                chk.violation("counterexample", f"{FN_NAME[fn]}: two returned hits overlap beyond the margin although the input "
+                              "has monotone overlap (outside the class greedy_replacement_margin)",
+                              dict(replay, theorem_or_correspondence="C13_pairwise_margin_guarded"))
+            elif not margin:
                 chk.count("class_greedy_replacement_margin")
                 finding(chk, known, "greedy_replacement_margin", agree[i], replay)
         else:
-            _ok, noconflict, nodup = verdict
+            _ok, noconflict, nodup, dropped_ok = verdict
+            if not dropped_ok:
+                chk.violation("counterexample", "hmmer.remove_overlapping: a hit is dropped although no returned hit that ranks "
+                              "better overlaps it by overlap_limit or more",
+                              dict(replay, theorem_or_correspondence="C13_hmmer_dropped_has_better_kept"))
             if not noconflict:
                 chk.violation("counterexample", "hmmer.remove_overlapping: two returned hits overlap by overlap_limit or more",
                               dict(replay, theorem_or_correspondence="C13_hmmer_no_overlap"))
@@ -677,12 +738,17 @@ def replay(chk, path):
     print("recorded implementation:", doc.get("implementation"))
     verdict = None
     still = model != out
-    if fn in (1, 2, 3, 7) and out[0] == 0:
+    if fn in (1, 2, 3, 5, 7) and (out[0] == 0 or fn == 5):
         verdict = common.run_driver([[PROP, fn + 100] + flat[2:] + out])[0]
         print("spec verdict on the implementation's output:", verdict)
         bits = list(verdict[1:]) if len(verdict) > 1 else list(verdict)
-        if fn in (1, 2) and len(bits) == 4 and "greedy_replacement_margin" in known_classes():
-            bits[2] = 1   # the pairwise margin is the recorded finding F21
+        if fn in (1, 2) and len(bits) == 5:
+            guard = bits.pop()
+            if not guard and "greedy_replacement_margin" in known_classes():
+                bits[2] = 1   # the pairwise margin outside the guard is the recorded finding F21
+        if fn == 5 and len(bits) == 3:
+            applicable, guard, same = bits
+            bits = [1] if (not applicable or same or (not guard and "filter_groups_not_merged" in known_classes())) else [0]
         still = still or not all(bits)
     if fn in (1, 2, 3):
         args = decode_args(flat)
